@@ -240,7 +240,7 @@ func main() {
 	res := vkit.NewResult("generated ammo files (all four HTTP formats, 1–6 entries, tags from a 5-element set incl. the empty tag) × limit {0,1,2,3,5,9} × passes {0,1,2,3} × chosencases {none, random subsets of the tag set, a subset matching nothing}; each case run with preload off and on; distinct = distinct (file text, limit, passes, chosencases); non-trivial = ≥ 2 entries")
 	rng := vkit.Rand("c14")
 	cases := seeds()
-	for i := 0; i < vkit.N(1500, 40000); i++ {
+	for i := 0; i < vkit.N(4000, 40000); i++ {
 		cases = append(cases, gen(rng))
 	}
 	hangs := 0
